@@ -72,6 +72,15 @@ class CWLDependencyListener(ECMAScriptListener):
                     if right_name in self.names:
                         self.names.add_name(left_name)
 
+    def enterVariableDeclaration(
+        self, ctx: ECMAScriptParser.VariableDeclarationContext
+    ) -> None:
+        # `var x = inputs;` creates an alias exactly like `x = inputs;`
+        if (initialiser := ctx.initialiser()) is not None:
+            name = self._get_name(ctx)
+            if name and self._get_name(initialiser.singleExpression()) in self.names:
+                self.names.add_name(name)
+
     def enterMemberDotExpression(
         self, ctx: ECMAScriptParser.MemberDotExpressionContext
     ) -> None:
